@@ -50,7 +50,11 @@ func main() {
 	case "concload":
 		runConcLoad(*seed, *tier, *out, *shards)
 	case "inventory":
-		runInventory("/repo", *out)
+		repo := os.Getenv("VERIF_REPO")
+		if repo == "" {
+			repo = "/repo"
+		}
+		runInventory(repo, *out)
 	case "poolseq":
 		runPoolSeq(*vectors, *out, *shards, *only)
 	case "poolconc":
